@@ -9,21 +9,8 @@ import tracecheck as tc
 import vlib
 from vlib import ToolError
 
-# Until the lead has merged VmStorage into spec/vm, the trace specification of the private copy is used.
-_PRIV = os.path.join(vlib.ROOT, "work", "vmstorage", "spec")
-def _merged():
-    try:
-        return os.path.exists(os.path.join(vlib.SPEC, "vm", "VmStorage.tla")) and "TStEnd" in open(os.path.join(vlib.SPEC, "vm", "FuelVM_Trace.tla")).read()
-    except OSError:
-        return False
-
-
-if _merged():
-    SPEC_TR = "vm/FuelVM_Trace.tla"
-    SPEC_MC = "vm/VmStorage_MC.tla"
-else:
-    SPEC_TR = os.path.join(_PRIV, "FuelVM_Trace.tla")
-    SPEC_MC = os.path.join(_PRIV, "VmStorage_MC.tla")
+SPEC_TR = "vm/FuelVM_Trace.tla"
+SPEC_MC = "vm/VmStorage_MC.tla"
 BIN = "vh_vmstorage"
 
 PROPERTIES = ["C33"]
